@@ -291,7 +291,7 @@ HARNESSES = [
       fns=['toml::Output::output_value'], timeout=900, assumes=['toml::to_string_pretty stubbed (must not be reached)']),
     H('U-TOML', 'toml', 'toml_output_value_rejects_array', 'complete', ['C08'], bounds='Array root',
       fns=['toml::Output::output_value'], timeout=900, assumes=['toml::to_string_pretty stubbed (must not be reached)']),
-    H('U-TOML', 'toml', 'toml_table_root_written_once', 'complete', ['C08', 'C12'], bounds='serializer Ok(3-byte document) / Err; writer failing, or accepting one byte per write call',
+    H('U-TOML', 'toml', 'toml_table_root_written_once', 'complete', ['C08', 'C12', 'C11'], bounds='serializer Ok(3-byte document) / Err; writer failing, or accepting one byte per write call',
       fns=['toml::Output::output_value'], timeout=600, min_covers=3,
       assumes=['toml::to_string_pretty stubbed by its assumed contract (Ok(document) or Err)', 'std::hash::RandomState::new stubbed by a fixed seed (table is empty, never hashed)']),
     H('U-JSN', 'json', 'json_input_matches_mapping_ok', 'complete', ['C09', 'C12'], bounds='every slice <= 3 B; trial accepts',
